@@ -142,8 +142,7 @@ def const_str(e):
     return e.value if isinstance(e, ast.Constant) and isinstance(e.value, str) else None
 
 
-def d2_prior(ctx):
-    rule = 'C19-D2'
+def d2_prior(ctx, rule='C19-D2'):
     m = ctx.repo.mod('fits')
     f = m.func('_extract_val_and_dval')
     fa = [s for s in statements(f) if isinstance(s, ast.Assign) and unparse(s.targets[0]) == 'factor']
